@@ -88,7 +88,7 @@ func (p *roundRobinQueryPlan) Next() *Host {
 	if p.index >= l {
 		return nil
 	}
-	host := p.hosts[(p.offset+p.index)%l]
+	host := p.hosts[(uint64(p.offset)+uint64(p.index))%uint64(l)]
 	p.index++
 	return host
 }
